@@ -187,6 +187,7 @@ type ChildReq struct {
 	Legacy  bool     `json:"legacy,omitempty"` // use the package-level Pack()
 	History []string `json:"history,omitempty"`
 	Flags   []bool   `json:"flags,omitempty"` // state of the shared default-rule flags before the call
+	PrePack string   `json:"pre_pack,omitempty"` // pack this directory first with the same Packer value
 }
 
 type ChildResp struct {
